@@ -1146,8 +1146,15 @@ func ruleXMath(cx *Ctx) {
 				}
 				return
 			}
-			if newTermBuilder().of(r.Results[0]).String() == want {
+			got := newTermBuilder().of(r.Results[0]).String()
+			if got == want {
 				okMain = true
+			}
+			// the same number spelled with the bit length: 1 << bits.Len(v-1)
+			for _, ln := range []string{"call:Len32", "call:Len64", "call:Len"} {
+				if got == mk("<<", tConst(1), mk(ln, mk("-", tVar("param0"), tConst(1)))).String() {
+					okMain = true
+				}
 			}
 		})
 		cx.R.Check(okMain && okZero && n == 2, rule, "xmath."+d.name, "bit smear + 1, and 1 for 0", cx.P.Pos(fn.Pos()), "the result is the next power of two >= v")
@@ -1212,4 +1219,97 @@ func ruleC18Handoff(cx *Ctx) {
 		}
 	})
 	cx.R.Check(ok, rule, funcName(fn), "candidate and callback handed on", cx.P.Pos(fn.Pos()), "evictFromMain(evictFromWindow(), evictNode)")
+}
+
+// ---------------------------------------------------------------------------------------------------------------
+// C05.views: the derived views read the bookkeeping they are named after
+// ---------------------------------------------------------------------------------------------------------------
+
+func ruleC05Views(cx *Ctx) {
+	const rule = "C05.views"
+	cx.R.Rule(rule, 3, "EstimatedSize is the table's Size(), WeightedSize is the policy's weightedSize (0 for an unweighted cache), GetMaximum is the policy's maximum (the largest value without a size bound), each returned unchanged")
+	if fn := cx.need(rule, "", "cache", "EstimatedSize"); fn != nil {
+		size := cx.P.Func(hmPkg, "Map", "Size")
+		hm := cx.P.Field("", "cache", "hashmap")
+		ok, n := true, 0
+		allInstrs(fn, func(in ssa.Instruction) {
+			if r, isR := in.(*ssa.Return); isR && len(r.Results) == 1 {
+				n++
+				c, isC := stripConv(r.Results[0]).(*ssa.Call)
+				if !isC || size == nil || !isCallTo(c, size) || (hm != nil && !sameField(recvField(c), hm)) {
+					ok = false
+				}
+			}
+		})
+		cx.R.Check(ok && n > 0, rule, funcName(fn), "returns the table's size", cx.P.Pos(fn.Pos()), "EstimatedSize() is hashmap.Size()")
+	}
+	for _, v := range []struct{ m, field string }{{"WeightedSize", "weightedSize"}, {"GetMaximum", "maximum"}} {
+		fn := cx.need(rule, "", "cache", v.m)
+		if fn == nil {
+			continue
+		}
+		ok, n := true, 0
+		allInstrs(fn, func(in ssa.Instruction) {
+			r, isR := in.(*ssa.Return)
+			if !isR || len(r.Results) != 1 {
+				return
+			}
+			n++
+			var chk func(x ssa.Value, d int)
+			chk = func(x ssa.Value, d int) {
+				x = stripConv(x)
+				if d > 4 {
+					ok = false
+					return
+				}
+				switch y := x.(type) {
+				case *ssa.Const:
+					// the fixed answer of a cache without the feature
+				case *ssa.Phi:
+					for _, e := range y.Edges {
+						chk(e, d+1)
+					}
+				case *ssa.UnOp:
+					f := fieldOf(y)
+					if f == nil || fname(f) != v.field || ownerName(fieldOwnerOfValue(y.X)) != "policy" {
+						// a local the field was read into
+						if al, isAl := y.X.(*ssa.Alloc); isAl {
+							if w := wholeStore(al); w != nil {
+								chk(w, d+1)
+								return
+							}
+						}
+						ok = false
+					}
+				case *ssa.Call:
+					// read through a helper (readPolicy(func)): the helper's results
+					if g := y.Call.StaticCallee(); g != nil && len(origin(g).Blocks) > 0 && strings.HasPrefix(origin(g).Pkg.Pkg.Path(), modPath) {
+						w := newDepWalker(false, "policy")
+						w.walk(y)
+						for _, a := range y.Call.Args {
+							if cl := closureOf(a); cl != nil {
+								allInstrs(cl, func(z ssa.Instruction) {
+									if rr, isRR := z.(*ssa.Return); isRR {
+										for _, res := range rr.Results {
+											w.walk(res)
+										}
+									}
+								})
+							}
+						}
+						ks := w.keys()
+						if len(ks) != 1 || ks[0] != v.field {
+							ok = false
+						}
+						return
+					}
+					ok = false
+				default:
+					ok = false
+				}
+			}
+			chk(r.Results[0], 0)
+		})
+		cx.R.Check(ok && n > 0, rule, funcName(fn), "returns the policy's "+v.field, cx.P.Pos(fn.Pos()), v.m+"() is evictionPolicy."+v.field+" (a constant without the feature)")
+	}
 }
